@@ -12,6 +12,7 @@ pub mod c09;
 pub mod c10;
 pub mod c12;
 pub mod c14;
+pub mod c15;
 pub mod textgen;
 
 pub fn dispatch(id: &str, cfg: Config) -> i32 {
@@ -28,6 +29,7 @@ pub fn dispatch(id: &str, cfg: Config) -> i32 {
         "C10" => crate::run_prop(c10::C10, cfg),
         "C12" => crate::run_prop(c12::C12, cfg),
         "C14" => crate::run_prop(c14::C14, cfg),
+        "C15" => crate::run_prop(c15::C15, cfg),
         _ => {
             eprintln!("unknown property {}", id);
             2
